@@ -28,7 +28,7 @@ import asimap.user_server
 from .auth import PWUser
 from .client import CAPABILITIES, ClientState, PreAuthenticated
 from .constants import MAX_INPUT_SIZE
-from .parse import BadCommand, parse_cmd_from_msg
+from .parse import BadCommand, IMAPClientCommand, parse_cmd_from_msg
 from .utils import UpgradeableReadWriteLock
 
 if TYPE_CHECKING:
@@ -938,14 +938,25 @@ class IMAPSubprocessInterface:
         IMAP client logs out, return `False` so that our calling layers know to
         disconnect the client.
         """
+        imap_cmd = IMAPClientCommand(
+            str(msg, "latin-1") if isinstance(msg, bytes) else msg
+        )
         try:
-            imap_cmd = parse_cmd_from_msg(msg)
+            imap_cmd.parse()
         except BadCommand as e:
             # XXX We should track the number of bad commands we get. If it is
             #     over some sort of limit we should slow down our responses and
             #     ultimately disconnect the client.
+            #
+            # NOTE: The command is answered with its tag whenever we got that
+            #       far (as the user server does): an untagged BAD is no
+            #       answer to the command, the client goes on waiting.
+            #
+            tag = imap_cmd.tag if imap_cmd.tag is not None else "*"
             try:
-                await self.imap_client.push(f"* BAD {e}\r\n")
+                await self.imap_client.push(
+                    f"{tag} BAD {' '.join(str(e).split())}\r\n"
+                )
                 return True
             except ConnectionError as e:
                 # Do not need a full stack trace for a connection error.
